@@ -41,8 +41,8 @@ pub fn build_xml(rec: &Value) -> String {
         let details = e["details"].as_array().unwrap();
         let echarge = dec_opt(&e["charge"]).unwrap_or(Decimal::ZERO);
         if !echarge.is_zero() {
-            s.push_str(&format!("<Chrgs><TtlChrgsAndTaxAmt Ccy=\"CHF\">{}</TtlChrgsAndTaxAmt><Rcrd><Amt Ccy=\"CHF\">{}</Amt><CdtDbtInd>{}</CdtDbtInd><ChrgInclInd>true</ChrgInclInd></Rcrd></Chrgs>\n",
-                two(echarge), two(echarge), if echarge.is_sign_negative() { "CRDT" } else { "DBIT" }));
+            s.push_str(&format!("<Chrgs><TtlChrgsAndTaxAmt Ccy=\"CHF\">{}</TtlChrgsAndTaxAmt><Rcrd><Amt Ccy=\"CHF\">{}</Amt><CdtDbtInd>{}</CdtDbtInd><ChrgInclInd>{}</ChrgInclInd></Rcrd></Chrgs>\n",
+                two(echarge), two(echarge), if echarge.is_sign_negative() { "CRDT" } else { "DBIT" }, e["chargeincl"] != false));
         }
         if !details.is_empty() {
             s.push_str(&format!("<NtryDtls><Btch><NbOfTxs>{}</NbOfTxs></Btch>\n", details.len()));
@@ -54,10 +54,10 @@ pub fn build_xml(rec: &Value) -> String {
                 s.push_str(&format!("<TxDtls><Refs><AcctSvcrRef>{}</AcctSvcrRef></Refs><Amt Ccy=\"CHF\">{}</Amt><CdtDbtInd>{}</CdtDbtInd>\n", reference, two(amt), dcd));
                 if !charge.is_zero() {
                     if d["figures"] != false {
-                    s.push_str(&format!("<AmtDtls><InstdAmt><Amt Ccy=\"CHF\">{}</Amt></InstdAmt><TxAmt><Amt Ccy=\"CHF\">{}</Amt></TxAmt></AmtDtls>\n", two(amt - charge), two(amt - charge)));
+                    s.push_str(&format!("<AmtDtls><InstdAmt><Amt Ccy=\"CHF\">{}</Amt></InstdAmt><TxAmt><Amt Ccy=\"CHF\">{}</Amt></TxAmt></AmtDtls>\n", two(if dcd == "CRDT" { amt + charge } else { amt - charge }), two(if dcd == "CRDT" { amt + charge } else { amt - charge })));
                     }
-                    s.push_str(&format!("<Chrgs><TtlChrgsAndTaxAmt Ccy=\"CHF\">{}</TtlChrgsAndTaxAmt><Rcrd><Amt Ccy=\"CHF\">{}</Amt><CdtDbtInd>{}</CdtDbtInd><ChrgInclInd>true</ChrgInclInd></Rcrd></Chrgs>\n",
-                        two(charge), two(charge), if charge.is_sign_negative() { "CRDT" } else { "DBIT" }));
+                    s.push_str(&format!("<Chrgs><TtlChrgsAndTaxAmt Ccy=\"CHF\">{}</TtlChrgsAndTaxAmt><Rcrd><Amt Ccy=\"CHF\">{}</Amt><CdtDbtInd>{}</CdtDbtInd><ChrgInclInd>{}</ChrgInclInd></Rcrd></Chrgs>\n",
+                        two(charge), two(charge), if charge.is_sign_negative() { "CRDT" } else { "DBIT" }, d["incl"] != false));
                 }
                 s.push_str(&format!("<RltdPties><Cdtr><Nm>Party {}</Nm></Cdtr></RltdPties><AddtlTxInf>detail {}</AddtlTxInf></TxDtls>\n", j + 1, j + 1));
             }
@@ -128,7 +128,12 @@ fn compare(got: &[Value], rec: &Value, viols: &mut Vec<Value>) {
             let others: Vec<(String, Decimal)> = posts.iter().filter(|p| p["account"] != "Assets:Src").filter_map(|p| lit(&p["amount"]).map(|x| (p["account"].as_str().unwrap().to_string(), x.0))).collect();
             let charge_sum: Decimal = others.iter().filter(|o| o.0 == "Expenses:Commissions").map(|o| o.1).sum();
             let dest_sum: Decimal = others.iter().filter(|o| o.0 != "Expenses:Commissions").map(|o| o.1).sum();
-            if charge_sum != want_charge || dest_sum != want_dest {
+            if w["loose"] == true {
+                // the division between counter posting and commissions is not fixed by the property: the transaction balances
+                if charge_sum + dest_sum + want_src != Decimal::ZERO {
+                    viols.push(viol("counter_amount", format!("transaction {}: counter {} + charges {} do not balance the account posting {}", k + 1, dest_sum, charge_sum, want_src)));
+                }
+            } else if charge_sum != want_charge || dest_sum != want_dest {
                 viols.push(viol("counter_amount", format!("transaction {}: counter {} + charges {}, expected {} + {}", k + 1, dest_sum, charge_sum, want_dest, want_charge)));
             }
         }
